@@ -20,3 +20,13 @@ for name in sorted(os.listdir(os.path.join(HERE, "seeded"))):
     rows.append("| %s | %s | %s | %s |" % (name, m["property"], m["needs_to_manifest"].replace("|", "/")[:150], "; ".join(det)))
 print("| seeded change | property | needs, to manifest | quick check result |\n|---|---|---|---|")
 print("\n".join(rows))
+
+import sys
+if "--write" in sys.argv:
+    # replace the table in DESIGN.md section 7a (from its header row up to the paragraph "**First round")
+    p = os.path.join(HERE, "DESIGN.md")
+    s = open(p).read()
+    a = s.index("| seeded change | property | needs, to manifest | quick check result |")
+    b = s.index("**First round (39 changes")
+    tab = "| seeded change | property | needs, to manifest | quick check result |\n|---|---|---|---|\n" + "\n".join(rows) + "\n\n"
+    open(p, "w").write(s[:a] + tab + s[b:])
